@@ -45,6 +45,11 @@ Theorem C05_reported_shift : forall n j m t,
 Proof. exact up_final_eq. Qed.
 Print Assumptions C05_reported_shift.
 
+Theorem C05_fsc_phase_table : forall m j, (0 <= m)%Q -> 0 <= j < fs_n m ->
+  fs_table_len (fs_n m) = fs_n m /\ fs_lag (fs_n m) j = up_z (fs_n m) j /\ - Qceiling m <= fs_lag (fs_n m) j <= Qceiling m.
+Proof. exact fs_table_matches_landscape. Qed.
+Print Assumptions C05_fsc_phase_table.
+
 Theorem C05_pcc_crop : forall N m, 1 <= N -> (0 <= m)%Q ->
   let im := pc_im m in
   0 <= im /\ 1 <= pc_P N m /\
